@@ -290,6 +290,30 @@ pub fn run(ctx: &mut Ctx) {
         }
         case += 1;
     }
+    // ---- very regular long lists: tens of thousands of entries that compress to a few dozen bytes
+    for (k, cnt) in [4_000usize, 16_000, 24_000, 100_000].iter().enumerate() {
+        if ctx.mine(case) {
+            ctx.begin(case);
+            let mut rng = ctx.rng("c05.regular", k as u64);
+            let len = rng.range(1, 500) as u32;
+            let start = rng.below(100);
+            let list: Vec<REntry> = (0..*cnt as u64)
+                .map(|i| REntry {
+                    tile_id: start + i,
+                    offset: i * u64::from(len),
+                    length: len,
+                    run_length: 1,
+                })
+                .collect();
+            for codec in R::CODECS {
+                check_list(ctx, &list, codec, true, &mut rng);
+            }
+            ctx.case(entries_fp(&list) ^ 0xc5, true);
+            ctx.count("regular_long_lists");
+            ctx.end(case);
+        }
+        case += 1;
+    }
     // ---- random lists
     let nrand = ctx.n(240, 20_000);
     for i in 0..nrand {
